@@ -172,6 +172,15 @@ func buildC17(e *engine, p *rt.Package) {
 			}
 		}
 		res.class(fmt.Sprintf("routes:%d", len(rpcs)))
+		allHeaders := map[string]bool{}
+		for _, r := range rpcs {
+			for _, h := range r.info.SvcHeaders {
+				allHeaders[strings.ToLower(h.GetName())] = true
+			}
+			for _, h := range r.info.MethodHeaders {
+				allHeaders[strings.ToLower(h.GetName())] = true
+			}
+		}
 		return func(t *rapid.T) {
 			if shared.regErr != "" {
 				t.Fatalf("%s", shared.regErr)
@@ -243,6 +252,22 @@ func buildC17(e *engine, p *rt.Package) {
 			}
 			res.sample(map[string]any{"calls": n, "parallelism": par, "first_call": short(calls[0].desc, 300)})
 			for i := range calls {
+				// per-route configuration: a route never rejects a call over a header only other routes declare
+				if strings.HasPrefix(got[i].err, "validation error: ") {
+					own := map[string]bool{}
+					for _, h := range calls[i].info.SvcHeaders {
+						own[strings.ToLower(h.GetName())] = true
+					}
+					for _, h := range calls[i].info.MethodHeaders {
+						own[strings.ToLower(h.GetName())] = true
+					}
+					for _, v := range strings.Split(strings.TrimPrefix(got[i].err, "validation error: "), "; ") {
+						f := strings.ToLower(strings.SplitN(v, ": ", 2)[0])
+						if allHeaders[f] && !own[f] {
+							t.Fatalf("call #%d to %s.%s was rejected over header %q, which neither its service nor the method declares (another route does): per-route configuration is shared\ncall: %s\nresult: %s", i, calls[i].svc.Name, calls[i].m.Name, f, short(calls[i].desc, 400), got[i])
+						}
+					}
+				}
 				// the error handler belongs to one registration: no other service's failures go through it
 				// (registrations in one process share nothing but the mux they were given)
 				if calls[i].svc.Name != hooked && (strings.Contains(got[i].err, "handled-by:") || strings.Contains(want[i].err, "handled-by:")) {
